@@ -4,7 +4,16 @@
    (2) the property's oracle on Go's OWN two outputs, independent of M: when both renders succeeded, the debug output
        must be the production output with white-space bytes (space, tab, CR, LF — the lexer's set) deleted; hence equal
        after erase_ws and no byte that production does not emit.
-   A case where only one mode fails is outside the property's statement ("render successfully") and is judged against M. *)
+   A case where only one mode fails is outside the property's statement ("render successfully") and is judged against M.
+
+   The rendered template may be one file of a directory tree of templates (sibling files in the same directory and in
+   sub-directories, loaded all at once in production mode, not at all — or only those its name is a prefix of — in
+   debug mode).  M compiles the rendered template on its own: the siblings are not part of the judged case at all, so
+   that an influence of a sibling on the rendered template shows as Go <> M in one mode and — through the oracle — as a
+   violation between the modes.
+   A case may be OPAQUE (d_opaque): the rendered file starts with a node the pug model has no constructor for (an
+   interpolated tag, whose compiled form depends on the compiler's raw-mode flag before any code node has set it); such
+   a case is judged by the oracle alone. *)
 From PV Require Export Run.Judge_Core.
 From PV Require Import Pug.Compile Run.Verdict.
 
@@ -79,7 +88,7 @@ Definition text_seam2 (c : caseC) : nat * nat :=
     end in
   (one false (c_prod c), match c_debug c with Some o => one true o | None => 3 end).
 
-Definition judge (c : caseC) : nat :=
+Definition judge_modelled (c : caseC) : nat :=
   match c_debug c with
   | None => v_drift                                   (* the harness did not render in debug mode *)
   | Some dbg =>
@@ -102,3 +111,25 @@ Definition judge (c : caseC) : nat :=
     end
   end.
 
+
+(* oracle only: every pair of successful renders must satisfy ws_subseq; nothing is said about M *)
+Fixpoint zip_oracle (rd rp : list (nat * bytes)) : list nat :=
+  match rd, rp with
+  | gd :: rd', gp :: rp' =>
+    (if Nat.eqb (fst gd) 0 && Nat.eqb (fst gp) 0 && negb (ws_subseq (snd gd) (snd gp)) then v_violation else v_unmodelled)
+    :: zip_oracle rd' rp'
+  | _, _ => []
+  end.
+
+Definition judge_opaque (c : caseC) : nat :=
+  match c_debug c with
+  | None => v_drift
+  | Some dbg =>
+    if o_loaded dbg && o_loaded (c_prod c) then worst (v_unmodelled :: zip_oracle (o_res dbg) (o_res (c_prod c)))
+    else v_unmodelled
+  end.
+
+Record caseD := { d_case : caseC; d_opaque : bool }.
+
+Definition judge (c : caseD) : nat :=
+  if d_opaque c then judge_opaque (d_case c) else judge_modelled (d_case c).
